@@ -43,7 +43,9 @@ MANIFEST = dict(
          "object (setBC, Interpolate, Fit with set or inherited grid; equal and different N) - after every call the "
          "object equals a fresh object given only the last call, exactly. Derivative-of-value identities also in both "
          "extrapolation regions for all three types; csg_resample identity clause also on long decimal tables with "
-         "negative/zero-crossing abscissae and early/late flag transitions.",
+         "negative/zero-crossing abscissae and early/late flag transitions, and with 4-column (x y yerr flag) input "
+         "tables. Scale family: ordinates x 2^{-60,-40,40}, abscissae x 2^{-20,20,30} (exact in binary): scaled instance = "
+         "base instance and all smoothness relations on the scaled instances (guard: some 0 < |f''| < 1e-12).",
     note="NOT covered: least-squares optimality of Fit beyond its first-order condition on small lattice data "
          "sets (normal equations against the cardinal splines of the fit grid, data on the quarter points of 3-5 "
          "knot grids; plus its consequences linearity, smoothness, boundary conditions, reproduction of in-space "
@@ -51,7 +53,8 @@ MANIFEST = dict(
          "derivative-of-value for curved data beyond the piecewise-polynomial identities inside one interval "
          "(nothing about approximating the derivative of the sampled function); grids with more than 6 knots except "
          "the patterned 40/200-knot family; non-lattice abscissae; splineDerivativeZero; AkimaSpline::Fit (throws by "
-         "design); yerr columns. Trusted: TLC, the lattice argument (abscissae dyadic, discrete decisions exact; "
+         "design); abscissa scale invariance of Fit beyond 2^+-4 and of Interpolate tighter than 2^|m| 1e-13 (conditioning), "
+         "Akima homogeneity at |y| ~ 1e-18 (absolute slope tolerance in getSlope). Trusted: TLC, the lattice argument (abscissae dyadic, discrete decisions exact; "
          "grid counts also on a decimal lattice), tolerance 1e-9 relative (2e-9 at the 10-digit file level), the "
          "text driver protocol, Python float conversion.")
 
